@@ -335,8 +335,10 @@ def command_cases(draw, command=None):
         "dimension": draw(st.sampled_from([None, "station", "obs"])),
         "format": draw(st.sampled_from(["geojson", "wkt", "wkb", "shapefile", "auto.geojson",
                                         "auto.json", "auto.wkt", "auto.wkb", "auto.shp"])),
-        "failure": draw(st.sampled_from(["miss_error", "unknown_extension", "bad_format", "bad_geometry",
-                                         "missing_input"])),
+        "failure": draw(st.sampled_from(["miss_error", "unknown_extension", "unknown_extension",
+                                         "bad_format", "bad_geometry", "missing_input"])),
+        "unknown_extension": draw(st.sampled_from([".xyz", ".topojson", ".ndjson", ".txt", "", ".nc",
+                                                   ".geojsonl", ".wkt2", ".shpx", ".xwkb", ".js"])),
     }
 
 
@@ -501,7 +503,7 @@ def _check_failure(ctx, case, tmp, src, rings, hole_rings, bbox, polygons, cells
         frame.to_csv(csv, index=False)
         argv = ["extract-points", src, csv, out]
     elif failure == "unknown_extension":
-        out = os.path.join(tmp, "geometry.xyz")
+        out = os.path.join(tmp, "geometry" + case.get("unknown_extension", ".xyz"))
         argv = ["export-geometry", src, out]
     elif failure == "bad_format":
         out = os.path.join(tmp, "geometry.geojson")
